@@ -52,6 +52,8 @@ def bound_sets(ctx, store, tx):
 
 def h_blocks(ctx, tier, seed, n=3, shape="two_same"):
     eng = ctx.eng
+    if shape == "three":
+        ctx.amount_bits = 8          # three blocks over three UTxOs: narrow amounts keep the sums cheap
     store = c03.Store(ctx, n)
     store.install(eng)
     T = store.T
@@ -164,7 +166,7 @@ HARNESSES = [
     _h("c04_addr_then_ref", _mk(2, "addr_and_ref"), "address block first, ref block second; " + S % 2, max_paths=400000, time_limit=1200),
     _h("c04_addr_then_token", _mk(2, "addr_then_token"), "lovelace block, then a many block asking for lovelace + token over the same party (union != intersection); " + S % 2, max_paths=400000, time_limit=1200),
     _h("c04_with_collateral", _mk(2, "with_collateral"), "2 blocks + a collateral block over the same party; " + S % 2, max_paths=400000, time_limit=1200),
-    _h("c04_three_blocks", _mk(3, "three"), "3 blocks from the same party, middle one many with a token threshold; " + S % 3, max_paths=2000000, time_limit=3000, tier="thorough"),
+    _h("c04_three_blocks", _mk(3, "three"), "3 blocks from the same party, middle one many with a token threshold; amounts below 2^8; " + S % 3, max_paths=2000000, time_limit=6000, tier="thorough"),
 ]
 
 
